@@ -233,6 +233,10 @@ def _m(mm):
 def call_prim(h, helper, p):
     op, a, b, c, v, w = p['op'], p['a'], p['b'], p['c'], p['v'], p['w']
     vel = () if v == 0 else (_m(v),)
+    if op == 'wait':            # the body's own time.sleep between two primitives
+        import cflib.positioning.motion_commander as mcm
+        import cflib.positioning.position_hl_commander as phm
+        return (mcm if helper == 'MC' else phm).time.sleep(_m(a))
     if op == 'move':
         axes = [(a, 'forward', 'back'), (b, 'left', 'right'), (c, 'up', 'down')]
         nz = [x for x in axes if x[0] != 0]
@@ -485,6 +489,32 @@ def _mutants():
         self.update_period = 2 * self.update_period
         SP._c17_orig['run'](self)
 
+    def run_skips_duplicates(self):                          # "nothing to change": no setpoint, wait restarted
+        current = None
+        while True:
+            try:
+                event = self._queue.get(block=True, timeout=self.update_period)
+                if event == self.TERMINATE_EVENT:
+                    return
+                if event == current:
+                    continue
+                current = event
+                self._new_setpoint(*event)
+            except mcm.Empty:
+                pass
+            self._update_z_in_setpoint()
+            self._cf.commander.send_hover_setpoint(*self._hover_setpoint)
+
+    def turn_left_mod(self, angle_degrees, rate=MC.RATE):    # a full revolution "brings us back"
+        self.start_turn_left(rate)
+        mcm.time.sleep((angle_degrees % 360.0) / rate)
+        self.stop()
+
+    def turn_right_mod(self, angle_degrees, rate=MC.RATE):
+        self.start_turn_right(rate)
+        mcm.time.sleep((angle_degrees % 360.0) / rate)
+        self.stop()
+
     def hl_goto_no_record(self, x, y, z=PH.DEFAULT, velocity=PH.DEFAULT):
         z = self._height(z)
         dx, dy, dz = x - self._x, y - self._y, z - self._z
@@ -521,12 +551,16 @@ def _mutants():
     def mk(obj, name, new):
         return lambda: _patch(obj, name, new)
 
-    def run_wrapped():
-        # SP.run is already the recording wrapper; keep its 'spdone' log around the slow loop
+    def run_wrapped(body=slow_run):
+        # SP.run is already the recording wrapper; keep its 'spdone' log around the replaced loop
         def run(self):
-            slow_run(self)
+            body(self)
             _log('spdone')
         return _patch(SP, 'run', run)
+
+    def both_turns():
+        u1, u2 = _patch(MC, 'turn_left', turn_left_mod), _patch(MC, 'turn_right', turn_right_mod)
+        return lambda: (u1(), u2())
     return {
         'MC:land_keeps_thread': mk(MC, 'land', land_keeps_thread),
         'MC:land_swapped_final': mk(MC, 'land', land_swapped),
@@ -537,6 +571,8 @@ def _mutants():
         'MC:resend_keeps_old_height': mk(SP, '_update_z_in_setpoint', no_z_update),
         'MC:new_setpoint_keeps_old_base': mk(SP, '_new_setpoint', new_setpoint_no_base),
         'MC:resend_period_doubled': run_wrapped,
+        'MC:duplicate_command_skipped': lambda: run_wrapped(run_skips_duplicates),
+        'MC:turn_angle_mod_360': both_turns,
         'PHC:goto_forgets_z': mk(PH, 'go_to', hl_goto_no_record),
         'PHC:duration_is_distance_times_velocity': mk(PH, 'go_to', hl_goto_wrong_time),
         'PHC:move_relative_to_origin': mk(PH, 'move_distance', hl_move_relative_to_origin),
@@ -565,7 +601,11 @@ MUTANTS = _LazyMutants()
 
 # --------------------------------------------------------------------------- scenario sources
 MC_QUICK = [Pr('move', 200), Pr('move', 0, -100, 0, 500), Pr('move', 0, 0, -300), Pr('turn', 1, 36, 0, 72),
-            Pr('start', 0, 0, -200), Pr('stop'), Pr('move', 0, 0, 100, 200), Pr('circle', 1, 90, 100, 200)]
+            Pr('start', 0, 0, -200), Pr('stop'), Pr('move', 0, 0, 100, 200), Pr('circle', 1, 90, 100, 200),
+            Pr('wait', 150), Pr('turn', 1, 360, 0, 72)]
+# programs about time: the body pauses (shorter / longer than the update period) between commands, some of
+# them equal to the command in force (stop while hovering, the same velocity commanded again)
+MC_TIMED = [Pr('wait', 150), Pr('wait', 500), Pr('stop'), Pr('start', 100), Pr('start', 0, 0, -200)]
 MC_MORE = [Pr('move', 300, 400, 0, 500), Pr('startcircle', -1, 0, 200, 500), Pr('start', 100, -100, 100, 0, 45),
            Pr('turn', -1, 90, 0, 90), Pr('move', -100, 0, 0, 100), Pr('move', 0, 0, 0), Pr('start', 0, 0, 0, 0, -72)]
 HL_QUICK = [Pr('move', 500), Pr('move', 0, 0, -600), Pr('goto', 1000, 0, 0, 0, 1), Pr('setv', v=250), Pr('seth', c=300),
@@ -589,7 +629,8 @@ def _throws(p, helper):
 def scenarios_enumerated(tier):
     """Own exhaustive enumeration: every program up to a length over a primitive alphabet, leaving the
     context normally and with an exception raised after every prefix, under the two extreme
-    interleaving policies; explicit take_off/land for the exception-free ones of length <= 2."""
+    interleaving policies; explicit take_off/land for the exception-free ones of length <= 2; every
+    MotionCommander program of length 3 (thorough: and 4) over the pause/repeat alphabet MC_TIMED."""
     out = []
     mc_a, mc_n = (MC_QUICK, 2) if tier == 'quick' else (MC_QUICK + MC_MORE, 3)
     hl_a, hl_n = (HL_QUICK, 2) if tier == 'quick' else (HL_QUICK + HL_MORE, 3)
@@ -600,6 +641,11 @@ def scenarios_enumerated(tier):
         if len(prog) <= 2 and not any(_throws(p, 'MC') for p in prog):
             out.append({'helper': 'MC', 'mode': 'explicit', 'prog': prog, 'dh': 300, 'sched': {'kind': 'spfirst'}})
             out.append({'helper': 'MC', 'mode': 'with', 'prog': prog, 'dh': 500, 'sched': {'kind': 'fifo'}})
+    for n in ((3,) if tier == 'quick' else (3, 4)):
+        import itertools
+        for t in itertools.product(MC_TIMED, repeat=n):
+            for kind in ('fifo', 'spfirst'):
+                out.append({'helper': 'MC', 'mode': 'with', 'prog': list(t), 'dh': 300, 'sched': {'kind': kind}})
     for prog in _programs(hl_a, hl_n):
         if not _hl_rational(prog, 500, 500, 0):
             continue
@@ -618,6 +664,37 @@ def scenarios_enumerated(tier):
 PYTH = [(300, 400, 0, 500), (300, 400, 0, 250), (0, 300, -400, 500), (200, -100, 200, 300), (-400, 0, 300, 100)]
 
 
+WAITS = [50, 100, 150, 200, 250, 500, 1000]
+
+
+def random_poll_loop(rng):
+    """The way applications drive start_* (multiranger push, joystick): a loop that commands a velocity
+    every dt, mostly the same one as before."""
+    dt = rng.choice([50, 100, 150, 250])
+    cmds = [Pr('start', 100), Pr('start', 0, 200), Pr('start', 0, 0, -100), Pr('start', 200, 0, 100), Pr('stop'),
+            Pr('start', 0, 0, 0, 0, 36)]
+    cur = rng.choice(cmds)
+    out = []
+    for _ in range(rng.randint(2, 6)):
+        if rng.random() < 0.25:
+            cur = rng.choice(cmds)
+        out += [dict(cur), Pr('wait', dt)]
+    return out
+
+
+def random_prims(rng, helper):
+    """One primitive, or a short idiom made of several."""
+    if helper == 'MC':
+        r = rng.random()
+        if r < 0.10:
+            return random_poll_loop(rng)
+        if r < 0.22:
+            return [Pr('wait', rng.choice(WAITS))]
+    elif rng.random() < 0.08:
+        return [Pr('wait', rng.choice(WAITS))]
+    return [random_prim(rng, helper)]
+
+
 def random_prim(rng, helper):
     if helper == 'MC':
         k = rng.randrange(10)
@@ -630,9 +707,10 @@ def random_prim(rng, helper):
             a, b, c, v = rng.choice(PYTH)
             return Pr('move', a, b, c, v)
         if k == 4:
-            return Pr('turn', rng.choice([1, -1]), rng.choice([36, 90, 180]), 0, rng.choice([0, 36, 90]))
+            return Pr('turn', rng.choice([1, -1]), rng.choice([36, 90, 180, 360, 450, 720]), 0, rng.choice([0, 36, 90]))
         if k == 5:
-            return Pr('circle', rng.choice([1, -1]), rng.choice([90, 180, 360]), rng.choice([100, 200, 300]),
+            ang = rng.choice([90, 180, 360, 450])       # (radius * angle * 17750 must stay below 2^31 in Flight.tla)
+            return Pr('circle', rng.choice([1, -1]), ang, rng.choice([100, 200, 300] if ang <= 360 else [100, 200]),
                       rng.choice([200, 500]))
         if k == 6:
             v = rng.choice([100, 200, 500]) * rng.choice([1, -1])
@@ -693,7 +771,7 @@ def scenarios_random(tier, rng):
     out = []
     n_mc, n_hl = (200, 100) if tier == 'quick' else (4000, 2000)
     while len(out) < n_mc:
-        prog = [random_prim(rng, 'MC') for _ in range(rng.randint(2, 8))]
+        prog = [p for _ in range(rng.randint(2, 8)) for p in random_prims(rng, 'MC')]
         if rng.random() < 0.3:
             prog.insert(rng.randint(0, len(prog)), RAISE)
             prog = prog[:prog.index(RAISE) + 1]
@@ -704,7 +782,7 @@ def scenarios_random(tier, rng):
     k = 0
     while k < n_hl:
         dh, dv, dl = rng.choice([(500, 500, 0), (400, 250, 200)])
-        prog = [random_prim(rng, 'PHC') for _ in range(rng.randint(2, 8))]
+        prog = [p for _ in range(rng.randint(2, 8)) for p in random_prims(rng, 'PHC')]
         if not _hl_rational(prog, dh, dv, dl):
             continue
         if rng.random() < 0.3:
@@ -865,7 +943,8 @@ def main(tier, seed, replay=None):
         'time advances only when no thread can run (a step takes no virtual time) -- this is the "scheduling quantum" '
         'of DESIGN 3.1(9); slack on the update period: 1 ms',
         'programs use the with-statement (optionally raising in the body after any prefix) or explicit take_off()/land(); '
-        'take_off/land are not called inside a body',
+        'take_off/land are not called inside a body; between two primitives the body may let virtual time pass '
+        '("wait" = its own time.sleep, 50 ms .. 1 s), which requests nothing and must not disturb the stream',
         'numbers: displacement vectors have rational length, durations are whole milliseconds except for circles '
         '(symbolic multiples of pi); floats are compared as exact rationals after snapping within relative 1e-9',
         'height of a setpoint = integral of the commanded vertical velocity within 2 um per velocity command issued '
@@ -886,11 +965,12 @@ def main(tier, seed, replay=None):
         return out.finish()
 
     # 1. design spec: exhaustive; every named deviation must be refuted (vacuity guard)
-    for cfg in (('MC_Flight_quick.cfg', 'MC_Flight_hl_quick.cfg') if tier == 'quick'
-                else ('MC_Flight_thorough.cfg', 'MC_Flight_thorough4.cfg', 'MC_Flight_hl_thorough.cfg')):
+    for cfg in (('MC_Flight_quick.cfg', 'MC_Flight_timed_quick.cfg', 'MC_Flight_hl_quick.cfg') if tier == 'quick'
+                else ('MC_Flight_thorough.cfg', 'MC_Flight_thorough4.cfg', 'MC_Flight_timed_thorough.cfg',
+                      'MC_Flight_hl_thorough.cfg')):
         r = tlc.check('MC_Flight.tla', cfg, coverage=(tier == 'thorough'), timeout=3000)
         out.add_tlc(cfg, r)
-    for bug in ('landdiv0', 'neglandsleep', 'noterm', 'swapfinal', 'nointegrate', 'norecord'):
+    for bug in ('landdiv0', 'neglandsleep', 'noterm', 'swapfinal', 'nointegrate', 'norecord', 'skipdup', 'turnmod'):
         rb = tlc.expect_violation('MC_Flight.tla', 'MC_Flight_bug_%s.cfg' % bug, timeout=900)
         out.sensitivity['spec:Bug=' + bug] = 'refuted (%s) after %d states' % (rb.violated, rb.distinct)
 
@@ -943,10 +1023,12 @@ def main(tier, seed, replay=None):
     out.rule = ('execution = (helper, constructor defaults, with/explicit, program, exception point, schedule); sources: '
                 'TLC -simulate behaviours of Flight (program and firing order), exhaustive enumeration of all programs up to '
                 'length %d over %d MotionCommander / %d PositionHlCommander primitives with and without an exception after '
-                'every prefix under the two extreme interleaving policies (%d executions; exhaustive refers to this space), '
-                'seeded random longer programs under random/PCT schedules; distinct = distinct (program, schedule) pairs'
-                % ((2, len(MC_QUICK), len(HL_QUICK), n_enum) if tier == 'quick'
-                   else (3, len(MC_QUICK + MC_MORE), len(HL_QUICK + HL_MORE), n_enum)))
+                'every prefix under the two extreme interleaving policies, plus all MotionCommander programs of length %s '
+                'over the %d pause/repeat primitives (%d executions; exhaustive refers to this space), '
+                'seeded random longer programs (with pauses, turns of a full revolution and more, polling loops that command '
+                'an unchanged velocity again) under random/PCT schedules; distinct = distinct (program, schedule) pairs'
+                % ((2, len(MC_QUICK), len(HL_QUICK), '3', len(MC_TIMED), n_enum) if tier == 'quick'
+                   else (3, len(MC_QUICK + MC_MORE), len(HL_QUICK + HL_MORE), '3 and 4', len(MC_TIMED), n_enum)))
     picks = [0, len(sim_scs), len(all_scs) - 1] + [b[0] for b in bad[:2]]
     out.samples = [{'helper': all_traces[i]['helper'], 'program': all_traces[i]['prog'], 'schedule_kind': all_scs[i]['sched']['kind'],
                     'outcome': all_traces[i]['outcome'], 'verdict': all_traces[i]['verdict'],
@@ -955,9 +1037,15 @@ def main(tier, seed, replay=None):
     # 4. sensitivity: in-memory mutants must be rejected on scenarios the unchanged code passes
     good = [i for i in range(len(sim_scs), len(all_scs)) if i not in badset]
     jobs, owner = [], []
+    # a mutant that needs a particular kind of program is tried on programs of that kind (the choice of test
+    # programs for the self-test; every one of them passed on the tree under test)
+    needs = {'MC:duplicate_command_skipped': lambda pr: any(p['op'] == 'wait' for p in pr[1:]),
+             'MC:turn_angle_mod_360': lambda pr: any(p['op'] == 'turn' and p['b'] >= 360 for p in pr)}
     for name in MUTANTS.names():
         helper = name.split(':')[0]
-        pool = [i for i in good if all_scs[i]['helper'] == helper and len(all_scs[i]['prog']) >= 2]
+        need = needs.get(name, lambda pr: True)
+        pool = [i for i in good if all_scs[i]['helper'] == helper and len(all_scs[i]['prog']) >= 2
+                and need(all_scs[i]['prog'])]
         step = max(1, len(pool) // (25 if tier == 'quick' else 150))
         for i in pool[::step]:
             jobs.append((all_scs[i], name))
@@ -970,6 +1058,10 @@ def main(tier, seed, replay=None):
         mine = [(i, c) for i, c, _ in mbad if owner[i] == name]
         cl = sorted({c for _, c in mine})
         out.sensitivity['mutant:' + name] = '%d of %d traces rejected %s' % (len(mine), owner.count(name), cl)
+        if not owner.count(name) and bad:
+            # every program of the kind this mutant needs already violates on the tree under test
+            out.sensitivity['mutant:' + name] = 'skipped: no passing program of the kind it needs on this tree'
+            continue
         if not mine:
             raise common.MachineryError('monitor did not reject in-memory mutant %s' % name)
     # binding self-tests: corrupted traces must be rejected
